@@ -385,6 +385,10 @@ class OutgoingRIB(Cache):
             yield RouteRefresh.make_route_refresh(afi, safi, RouteRefresh.start)
 
         for route in refresh_routes:
+            # a route withdrawn since the refresh was requested must not be announced again:
+            # the first batch of a session is sent without its withdraws and would leave it behind
+            if route.nlri.index() in pending_withdraws.get(route.nlri.family().afi_safi(), {}):
+                continue
             yield UpdateCollection([RoutedNLRI(route.nlri, route.nexthop)], [], route.attributes)
 
         for afi, safi in refresh_families:
